@@ -163,6 +163,7 @@ func init() {
 		{name: "work on another document (build, save, reopen, render as template)", kind: "other"},
 		{name: "AddParagraph({{#image pic}})", kind: "placeholder"},
 		{name: "move the paragraph that holds the last body picture to the end (RemoveParagraph(handle), then Body.AddElement(handle))", kind: "movepic"},
+		{name: "AddImageFromData(format \"bmp\": refused)", kind: "reject"},
 		{name: "render-template(pic=png)", kind: "render"},
 		{name: "render-template(no placeholder data: the render adds no relationship of its own)", kind: "render0"},
 		{name: "reopen", kind: "reopen"},
@@ -201,6 +202,7 @@ type c02Inst struct {
 	reop   int
 	rend   int
 	moved  int
+	rej    int
 	nph    int
 	nfn    int
 	nen    int
@@ -245,6 +247,8 @@ func (i *c02Inst) Enabled(op int) bool {
 		return i.rend < 1
 	case "movepic":
 		return i.moved < 1 && c02LastPicturePara(i.doc) != nil
+	case "reject":
+		return i.rej < 1
 	case "placeholder":
 		return i.nph < 1
 	}
@@ -353,6 +357,11 @@ func (i *c02Inst) Apply(op int) (string, []rep.Violation) {
 			}
 			i.doc = d
 			i.rend++
+		case "reject":
+			if _, e := i.doc.AddImageFromData(pngBytes(2, 1, 15), "x.bmp", document.ImageFormat("bmp"), 2, 1, nil); e == nil {
+				err = fmt.Errorf("an image of the unsupported format \"bmp\" was accepted")
+			}
+			i.rej++
 		case "movepic":
 			p := c02LastPicturePara(i.doc)
 			if !i.doc.RemoveParagraph(p) {
